@@ -95,6 +95,21 @@ func VxC08IPString(ip net.IP) string {
 	if conc {
 		return ip.String()
 	}
+	// the same bytes (identical terms) have the same text
+	for k, old := range VxC08IPTab {
+		if len(old) != len(ip) {
+			continue
+		}
+		same := true
+		for j := range ip {
+			if !vx.SameByte(old[j], ip[j]) {
+				same = false
+			}
+		}
+		if same {
+			return vxC08Tokens[k]
+		}
+	}
 	n := len(VxC08IPTab)
 	VxC08IPTab = append(VxC08IPTab, append([]byte(nil), ip...))
 	return vxC08Tokens[n]
